@@ -7,7 +7,7 @@
  *   canonical form: 8-bit iff tag <= 0x1f and length <= 0xff; a composite's payload is exactly tiled by its children.
  *
  * usage: c09_tlv <gen> <what-mask> <seed> <shard> <nshards> <count>
- *   gen  : prefix | leaf | trees | big | empty
+ *   gen  : prefix | leaf | trees | big | empty | witness
  *   what : 1 tree codec serialisation, 2 element codec serialisation with n >= needed (+detach), 4 element codec
  *          serialisation with n < needed, 8 parsers/readers (round trip, truncations, length perturbations),
  *          16 stream readers (FILE / socket), 32 element codec edit operations (remove / set)
@@ -159,7 +159,7 @@ static void judge(const char *group, const char *entry, int opt, const unsigned 
 		if (rc == KSI_OK) {
 			snprintf(key, sizeof key, "%s:oversize-content-%s:accepted", group, over == 65536 ? "65536" : "gt65536");
 			if (out && len >= 4 && len <= n && !(opt & KSI_TLV_OPT_NO_HEADER))
-				vh_viol(key, rep, "%s returned KSI_OK (len=%zu) for a tree holding an element with %zu content bytes (> 65535); header written: %02x %02x %02x %02x (length field %u)", entry, len, over, out[0], out[1], out[2], out[3], (unsigned)(out[2] << 8 | out[3]));
+				vh_viol(key, rep, "%s returned KSI_OK (len=%zu) for a tree holding an element with %zu content bytes (> 65535); top-level header written: %02x %02x %02x %02x (length field %u)", entry, len, over, out[0], out[1], out[2], out[3], (unsigned)(out[2] << 8 | out[3]));
 			else vh_viol(key, rep, "%s returned KSI_OK (len=%zu) for a tree holding an element with %zu content bytes (> 65535)", entry, len, over);
 		} else vh_count("oversize_refused", 1);
 		return;
@@ -844,6 +844,17 @@ static void gen_big(unsigned shard, unsigned nshards, uint64_t count) {
 	}
 }
 
+/* smallest trees for the boundary behaviours, run first so that the replay of a finding is a minimal one */
+static void gen_witness(void) {
+	static const size_t pl[] = {65531, 65532, 65533};   /* +4 header bytes: parent content 65535 / 65536 / 65537 */
+	size_t i; Node *t;
+	t = node_new(0x01, 0, 0, 1); node_add(t, leaf_pat(0x02, 0, 0, 1)); node_add(t, leaf_pat(0x03, 0, 0, 1)); run_tree(t); node_free(t);
+	t = leaf_pat(0x01, 0, 0, 0); run_tree(t); node_free(t);
+	t = leaf_pat(0x01, 0, 0, 3); run_tree(t); node_free(t);
+	for (i = 0; i < 3; i++) { t = node_new(0x0801, 0, 0, 1); node_add(t, leaf_pat(0x0300, 0, 0, pl[i])); run_tree(t); node_free(t); }
+	for (i = 0; i < 3; i++) { t = leaf_pat(0x01, 0, 0, 65535 + i); run_tree(t); node_free(t); }
+}
+
 /* all 2^16 two-byte prefixes x trailing lengths */
 static void fill(unsigned char *p, size_t n, unsigned kind) {
 	size_t i;
@@ -853,7 +864,7 @@ static void fill(unsigned char *p, size_t n, unsigned kind) {
 	case 1: for (i = 0; i < n; i++) p[i] = (unsigned char)(i % 3 == 0 ? 0x41 : i % 3 == 1 ? 1 : 0x99); break;
 	case 2: for (i = 0; i < n; i++) p[i] = (unsigned char)vh_rand(); break;
 	default: /* one element filling everything */
-		memset(p, 0, n);
+		memset(p, n > 1500 ? 0xff : 0, n);
 		if (n >= 2 && n <= 257) { p[0] = 0x07; p[1] = (unsigned char)(n - 2); }
 		else if (n >= 4) { p[0] = 0x81; p[1] = 0x23; p[2] = (unsigned char)((n - 4) >> 8); p[3] = (unsigned char)(n - 4); }
 		break;
@@ -900,6 +911,7 @@ int main(int argc, char **argv) {
 	else if (!strcmp(gen, "leaf")) gen_leaves(shard, nshards, count);
 	else if (!strcmp(gen, "trees")) gen_trees(count);
 	else if (!strcmp(gen, "big")) gen_big(shard, nshards, count);
+	else if (!strcmp(gen, "witness")) gen_witness();
 	else if (!strcmp(gen, "empty")) { unsigned char z = 0; empty_inputs = 1; case_set("zero-length input (pointer to the end of a heap block)"); vh_fp(12345); vh_fp(54321); parse_all(&z, 0); }
 	else return 3;
 	KSI_CTX_free(ctx);
